@@ -89,6 +89,22 @@ class Rng(random.Random):
             T = list(tdom)
         P = [[self.data_value(dcls) for _ in range(dim)] for _ in range(n + 1)]
         bc = {k: [self.data_value(dcls if dcls != "zero" else "grid") for _ in range(dim)] for k in ("sv", "sa", "sj", "ev", "ea", "ej")}
+        # special coordinates (data-dependent shortcuts): one coordinate identically zero, or constant and at rest, or at rest only,
+        # or two consecutive equal waypoints
+        u = self.random()
+        if u < 0.24:
+            c = self.randrange(dim)
+            kind = ("zero", "const", "rest", "pair")[int(u / 0.06)]
+            if kind in ("zero", "const"):
+                val = 0.0 if kind == "zero" else self.data_value(dcls)
+                for row in P:
+                    row[c] = val
+            if kind in ("zero", "const", "rest"):
+                for k in bc:
+                    bc[k][c] = 0.0
+            if kind == "pair":
+                i = self.randrange(n)
+                P[i + 1][c] = P[i][c]
         return {"order": order, "dim": dim, "T": T, "P": P, "bc": bc, "t0": self.start_time() if t0 is None else t0, "dcls": dcls}
 
 
